@@ -112,3 +112,24 @@ PROPS["C07"] = {
     "rule": "seeded ASTs with 80% canonical rules (plain ranges in every dimension) in 4 of 5 shards x holiday context x ~64 targeted + 40 random + 24 month-boundary days (thorough: + 800-day sweep). Non-trivial = >= 2 rules and the normal form differs from the input; distinct by hash of the AST.",
     "assumptions": ["the library's evaluator is used on both sides (self-consistency)", "listed finding D11 (commentless_closed_before_midnight_span) is reported as KNOWN-FINDING, any failing reduction outside its trigger as VIOLATION"],
 }
+
+PROPS["C13"] = {
+    "technique": "invariant monitor on normalize: second pass, repeated pass, reparsed clone, other thread, and print/reparse/re-normalize round trip",
+    "level_text": "On overlap-heavy generated expressions normalize(normalize(e)) is compared with normalize(e) (PartialEq on expressions and on their print-outs), normalization of equal expressions (same value again, an independently reparsed equal value, a value normalized on another thread) must be equal, and the normal form must print, reparse, and - normalized once more after going through text - evaluate identically. Exploration.",
+    "rule": "the C07 workload (80% canonical rules in 4 of 5 shards, all operators/kinds, comments on closed rules). Non-trivial = the normal form differs from the input; distinct by hash of the AST.",
+    "assumptions": ["PartialEq on the public AST types", "evaluation comparison as in C06"],
+}
+
+PROPS["C16"] = {
+    "technique": "differential monitor: bounded context vs a pointwise scan of the unbounded daily schedules at instants placed around B-24h and B",
+    "level_text": "For generated expressions (half biased to long intervals) and bounds B from 1 day to 2 years (thorough: to 50 years) +- minutes, instants are placed so that the exact next change lies at B-24h and B, +-1 min / +-1 day around both, and at the start, middle and end of intervals; the bounded next_change must be the exact answer or None, exact when required, None when required, and state must be unchanged. Exploration; the evidence counts how often each obligation (exact required / None required / either allowed) was exercised.",
+    "rule": "seeded ASTs x holiday context x bound B in {1, 2, 7, 31, 366 d; thorough also 10 y, 50 y} + {0, +-1, 30, 720} min x up to 15 placed instants. Exact answer = first pointwise change found in the daily schedules within B + 2 days. Non-trivial: every checked instant (all have a definite obligation); distinct by hash of (AST, context, instant, bound).",
+    "assumptions": ["schedule_at of the unbounded context is the pointwise truth (C01/C03)"],
+}
+
+PROPS["C17"] = {
+    "technique": "invariant monitor on returned structures plus the reference model's per-minute provenance to recognise the 'exactly one rule, isolated' premise",
+    "level_text": "For generated expressions with comments on random subsets of rules (shared, duplicate, containing ', ', on closed rules) every range of schedule_at on targeted and random days and every interval of short windows is checked: comments strictly increasing, all taken from rules of the expression, empty outside 1900..9999 and on days to which the model says no rule contributes; periods that the model attributes to exactly one rule with no other rule's minutes touching or overlapping must carry exactly that rule's comments; the first interval of iter_range carries the comments of the schedule period containing the start. Exploration.",
+    "rule": "seeded ASTs with comments on 65% of the rules x holiday context x ~40 targeted + 24 random days + 3 days outside the range x 6 window starts (2 at the bounds). Non-trivial = at least one rule has a comment; distinct by hash of (AST, context).",
+    "assumptions": ["the premise 'contributed by exactly one rule' is read conservatively from the model's per-rule minutes (DESIGN.md C17)", "abstention shapes of the model skip the provenance check only"],
+}
